@@ -190,6 +190,54 @@ theorem otherAxis_spec (a i dim : Nat) (_ha : a < dim) (hi : i + 1 < dim) :
   unfold otherAxis
   split_ifs <;> omega
 
+/-- weighted version of `sum_uHi`: a cell coefficient `P` travels to the lower cell of each face -/
+theorem sum_coef_uHi (shape : List Nat) (U P : Nat → Rat) (a : Nat) (ha : a < shape.length) :
+    sumTo (numCells shape) (fun c => P c * uHi shape U a (decF shape c)) =
+      sumTo (nfa shape a) (fun k => P (conn shape (offset shape a + k)).1 * U (offset shape a + k)) := by
+  have e1 : ∀ k, k < nfa shape a → P (conn shape (offset shape a + k)).1 * U (offset shape a + k) =
+      sumTo (numCells shape) (fun c => if c = (conn shape (offset shape a + k)).1 then P c * U (offset shape a + k) else 0) := by
+    intro k hk
+    rw [sumTo_ite_eq _ _ (fun c => P c * U (offset shape a + k)) (conn_lt shape _ (face_block shape a k ha hk).2.2).1]
+  rw [sumTo_congr e1, sumTo_comm]
+  refine sumTo_congr fun c hc => ?_
+  have hidx := decF_inBox shape c hc
+  have e2 : ∀ k, k < nfa shape a →
+      (if c = (conn shape (offset shape a + k)).1 then P c * U (offset shape a + k) else 0) =
+      (if k = encF (fshape shape a) (decF shape c) then
+        (if (decF shape c).getD a 0 + 1 < shape.getD a 0 then P c * U (offset shape a + k) else 0) else 0) := by
+    intro k hk
+    simp only [conn_fst_eq_iff shape a c k ha hc hk]
+    by_cases h1 : k = encF (fshape shape a) (decF shape c) <;>
+      by_cases h2 : (decF shape c).getD a 0 + 1 < shape.getD a 0 <;> simp [h1, h2]
+  rw [sumTo_congr e2, sumTo_ite_eq_guard (nfa shape a) _ (fun k => P c * U (offset shape a + k)) _
+        (fun hlt => encF_lt _ _ ((inBox_fshape shape (decF shape c) a ha).2 ⟨hidx, hlt⟩))]
+  simp only [uHi, faceNum]
+  split_ifs <;> ring
+
+/-- weighted version of `sum_uLo`: the coefficient travels to the upper cell of each face -/
+theorem sum_coef_uLo (shape : List Nat) (U P : Nat → Rat) (a : Nat) (ha : a < shape.length) :
+    sumTo (numCells shape) (fun c => P c * uLo shape U a (decF shape c)) =
+      sumTo (nfa shape a) (fun k => P (conn shape (offset shape a + k)).2 * U (offset shape a + k)) := by
+  have e1 : ∀ k, k < nfa shape a → P (conn shape (offset shape a + k)).2 * U (offset shape a + k) =
+      sumTo (numCells shape) (fun c => if c = (conn shape (offset shape a + k)).2 then P c * U (offset shape a + k) else 0) := by
+    intro k hk
+    rw [sumTo_ite_eq _ _ (fun c => P c * U (offset shape a + k)) (conn_lt shape _ (face_block shape a k ha hk).2.2).2]
+  rw [sumTo_congr e1, sumTo_comm]
+  refine sumTo_congr fun c hc => ?_
+  have hidx := decF_inBox shape c hc
+  have e2 : ∀ k, k < nfa shape a →
+      (if c = (conn shape (offset shape a + k)).2 then P c * U (offset shape a + k) else 0) =
+      (if k = encF (fshape shape a) (unbump (decF shape c) a) then
+        (if 1 ≤ (decF shape c).getD a 0 then P c * U (offset shape a + k) else 0) else 0) := by
+    intro k hk
+    simp only [conn_snd_eq_iff shape a c k ha hc hk]
+    by_cases h1 : k = encF (fshape shape a) (unbump (decF shape c) a) <;>
+      by_cases h2 : 1 ≤ (decF shape c).getD a 0 <;> simp [h1, h2]
+  rw [sumTo_congr e2, sumTo_ite_eq_guard (nfa shape a) _ (fun k => P c * U (offset shape a + k)) _
+        (fun h1 => encF_lt _ _ (inBox_unbump shape (decF shape c) a ha hidx h1))]
+  simp only [uLo, faceNum]
+  split_ifs <;> ring
+
 /-- divergence is the negative adjoint of the area-weighted face difference (see `C06.div_adjoint`) -/
 theorem div_adjoint_aux (shape : List Nat) (h : List Rat) (U P : Nat → Rat) :
     sumTo (numCells shape) (fun c => P c * divApply shape h U c) =
